@@ -185,6 +185,11 @@ def network(draw, max_species=10, max_reactions=12, thermal=True, modifiers=Fals
     used = {i for rc in reacs for i in rc["r"] + rc["p"]}
     unused = [i for i in range(len(pool)) if i not in used]
     required = [i for i in unused if draw(st.booleans())]
+    if used and draw(st.integers(0, 3)) == 0:
+        # extra species may also be named although they react (config: species.required / --extra-species)
+        required += draw(st.lists(st.sampled_from(sorted(used)), min_size=1, max_size=2))
+    if required and draw(st.integers(0, 4)) == 0:
+        required.append(required[0])  # ... and a species may be named twice
     case = {
         "pool": pool,
         "reactions": reacs,
@@ -214,7 +219,7 @@ def network(draw, max_species=10, max_reactions=12, thermal=True, modifiers=Fals
             deps = [draw(pick) for _ in range(ndep)]
             if ndep >= 2 and draw(st.integers(0, 2)) == 0:
                 deps[1] = deps[0]
-            fact = draw(st.sampled_from(["-2.0 * nH", "0.5*zeta", "1.0e-17", "-3.0", "nH * 2.0 - 1.0", "Tgas/300.0"]))
+            fact = draw(st.sampled_from(["-2.0 * nH", "0.5*zeta", "1.0e-17", "-3.0", "nH * 2.0 - 1.0", "Tgas/300.0", "-nH + 0.5 * zeta", "-2.0 * nH - zeta", "-(nH - zeta) * 0.5"]))
             case["ode_mod"].append({"target": tgt, "factor": fact, "deps": deps})
     return case
 
@@ -339,10 +344,14 @@ def balanced_network(draw, max_reactions=10):
     for rc in reactions:
         if any(pool[i]["k"] == "e" for i in rc["r"] + rc["p"]) and draw(st.integers(0, 2)) == 0:
             rc["ealt"] = True  # this reaction spells the electron the other way (e- / E)
+    required = []
+    if draw(st.integers(0, 2)) == 0:
+        # extra species that also take part in reactions, possibly named twice
+        required = draw(st.lists(st.integers(0, len(pool) - 1), min_size=1, max_size=3))
     return {
         "pool": pool,
         "reactions": reactions,
-        "required": [],
+        "required": required,
         "eletter": draw(st.sampled_from(["e-", "E"])),
         "cooling": [],
         "heating": [],
